@@ -120,13 +120,6 @@ Proof.
   destruct (one_pass chg' p fs st) as [[todo st']|]; [|reflexivity]. now rewrite IH.
 Qed.
 
-Theorem format_files_change_results_only chg chg' max_passes fs :
-  (forall f, In f fs -> forall p, chg f p = chg' f p) ->
-  format_files_model chg max_passes fs = format_files_model chg' max_passes fs.
-Proof.
-  intros E. unfold format_files_model. rewrite (pass_loop_ext chg chg' (sort_files fs)); [reflexivity|].
-  intros f Hf. apply E. eapply Permutation_in; [apply Permutation_sym, sort_perm | exact Hf].
-Qed.
 
 (* ---- at most max_passes passes; every batch is duplicate-free (no two workers get the same file) *)
 Lemma pass_loop_length chg : forall fuel p fs st, length (fst (pass_loop chg fuel p fs st)) <= fuel.
@@ -166,6 +159,36 @@ Proof.
   match goal with |- context [pass_loop chg n (S p) fs ?s] => specialize (IH (S p) fs s batch);
     destruct (pass_loop chg n (S p) fs s) as [log stf] end.
   cbn in *. intros [<-|H]; [exact T | now apply IH].
+Qed.
+
+Lemma existsb_ext_in' {A} (f g : A -> bool) l : (forall x, In x l -> f x = g x) -> existsb f l = existsb g l.
+Proof.
+  induction l as [|a l IH]; intros H; cbn; [reflexivity|].
+  rewrite (H a) by now left. rewrite IH; [reflexivity|]. intros x Hx. apply H. now right.
+Qed.
+
+Lemma log_changes_ext chg chg' (fs : list file) : (forall f, In f fs -> forall p, chg f p = chg' f p) ->
+  forall log p, (forall batch, In batch log -> forall f, In f batch -> In f fs) ->
+  log_changes chg p log = log_changes chg' p log.
+Proof.
+  intros E. induction log as [|b tl IH]; intros p H; cbn; [reflexivity|].
+  rewrite IH by (intros batch Hb; apply H; now right). f_equal.
+  apply existsb_ext_in'. intros f Hf. apply E. eapply H; [now left | exact Hf].
+Qed.
+
+Theorem format_files_change_results_only chg chg' max_passes fs :
+  (forall f, In f fs -> forall p, chg f p = chg' f p) ->
+  format_files_model chg max_passes fs = format_files_model chg' max_passes fs.
+Proof.
+  intros E. unfold format_files_model.
+  assert (E' : forall f, In f (sort_files fs) -> forall p, chg f p = chg' f p).
+  { intros f Hf. apply E. eapply Permutation_in; [apply Permutation_sym, sort_perm | exact Hf]. }
+  rewrite (pass_loop_ext chg chg' (sort_files fs) E').
+  pose proof (pass_loop_batches chg' max_passes 1 (sort_files fs)
+                (map (fun d => (d, (true, max_passes))) (folders_of (sort_files fs)))) as B.
+  destruct (pass_loop chg' max_passes 1 (sort_files fs) _) as [log st]. cbn [fst] in B.
+  f_equal. apply (log_changes_ext chg chg' (sort_files fs) E').
+  intros batch Hb f Hf. now apply (B batch Hb).
 Qed.
 
 Theorem format_files_batches chg max_passes fs :
